@@ -158,6 +158,59 @@ func (x *Exec) hypothesesAndGoal(o *Oblig) ([]*Term, *Term) {
 	if !o.ExpectSat {
 		goal = tb.RewriteUnder(o.Goal, lits, nlits, memo)
 	}
+	// Constant propagation: a hypothesis  T = c  (c a constant, T not) lets every occurrence
+	// of T be replaced by c; the hypothesis is kept.
+	{
+		csub := map[int]*Term{}
+		for _, h := range out {
+			if h.Op != "=" {
+				continue
+			}
+			for k := 0; k < 2; k++ {
+				l, r := h.Args[k], h.Args[1-k]
+				if r.IsConst() && !l.IsConst() && l.Sort != 0 && (l.Op == "uf" || l.Op == "var") {
+					csub[l.id] = r
+				}
+			}
+		}
+		if len(csub) > 0 {
+			memo3 := map[int]*Term{}
+			for id, t := range csub {
+				memo3[id] = t
+			}
+			none := map[int]bool{}
+			var out3 []*Term
+			seen3 := map[int]bool{}
+			for _, h := range out {
+				keep := false
+				if h.Op == "=" {
+					for k := 0; k < 2; k++ {
+						if c, ok := csub[h.Args[k].id]; ok && c == h.Args[1-k] {
+							keep = true
+						}
+					}
+				}
+				if keep {
+					if !seen3[h.id] {
+						seen3[h.id] = true
+						out3 = append(out3, h)
+					}
+					continue
+				}
+				r := tb.RewriteUnder(h, none, none, memo3)
+				for _, c := range conjuncts(r, nil) {
+					if !c.IsTrue() && !seen3[c.id] {
+						seen3[c.id] = true
+						out3 = append(out3, c)
+					}
+				}
+			}
+			out = out3
+			if !o.ExpectSat {
+				goal = tb.RewriteUnder(goal, none, none, memo3)
+			}
+		}
+	}
 	// Unit propagation: hypotheses that are literals (after the rewriting above) are used like
 	// path-condition literals in every OTHER hypothesis and in the goal; they stay in the list.
 	for round := 0; round < 3; round++ {
